@@ -108,6 +108,8 @@ class Exec:
         self.lines_opt = None; self.tag = ""; self.race_reports = 0
 
     def died(self):
+        if self.rc == 66 and self.race_reports and self.count is not None:   # race detector's exit code
+            return False
         return self.timed_out or self.rc != 0 or self.count is None
 
 
@@ -199,7 +201,7 @@ def dcase_term(e, ids, seed):
     zl = lambda xs: "[" + "; ".join("%d" % x for x in xs) + "]%Z"
     return "(DCase %d (%d) (%d) %d%%N %s %s (%d) %s)" % (
         e.c, s, n, seed, zl([ids[k] for k in e.contents]), zl(e.summary or []),
-        e.count if e.count is not None else -99, zl(ran_indices(e)))
+        e.count if e.count is not None else -99, zl(getattr(e, "ran", None) if getattr(e, "ran", None) is not None else ran_indices(e)))
 
 
 def coq_dispatch_mismatches(ctx, name, execs, errs, seed):
